@@ -8,6 +8,7 @@ import (
 	"crypto/rsa"
 	"crypto/x509"
 	"crypto/x509/pkix"
+	"encoding/asn1"
 	"encoding/pem"
 	"fmt"
 	"math/big"
@@ -86,6 +87,69 @@ func main() {
 			fmt.Println(8+i, "leaf of sim CA", len(der))
 		}
 	}
+	extra(out)
+}
+
+// extra adds k10..k17 (leaves of the CA reusing k8's key, common names of 1..8 extra characters so that the
+// certificate length — and with it the length of every signature blob — covers all residues modulo 8) and
+// k18 (self-signed, with a 70000-byte private extension: SignedData larger than 65535 bytes).
+func extra(out string) {
+	if _, err := os.Stat(out + "/k10.key.pem"); err == nil {
+		return
+	}
+	rd := func(n string) []byte {
+		b, err := os.ReadFile(out + "/" + n)
+		if err != nil {
+			panic(err)
+		}
+		blk, _ := pem.Decode(b)
+		return blk.Bytes
+	}
+	caKeyAny, err := x509.ParsePKCS8PrivateKey(rd("ca.key.pem"))
+	if err != nil {
+		panic(err)
+	}
+	caKey := caKeyAny.(*rsa.PrivateKey)
+	caCert, err := x509.ParseCertificate(rd("ca.cert.pem"))
+	if err != nil {
+		panic(err)
+	}
+	k8Any, err := x509.ParsePKCS8PrivateKey(rd("k8.key.pem"))
+	if err != nil {
+		panic(err)
+	}
+	k8 := k8Any.(*rsa.PrivateKey)
+	for i := 0; i < 8; i++ {
+		t := &x509.Certificate{
+			SerialNumber: big.NewInt(int64(0x2001 + i)), Subject: pkix.Name{CommonName: "sim leaf len " + "xxxxxxxx"[:i+1], Organization: []string{"verif sim"}},
+			NotBefore: time.Date(1999, 1, 1, 0, 0, 0, 0, time.UTC), NotAfter: time.Date(2099, 1, 1, 0, 0, 0, 0, time.UTC),
+			KeyUsage: x509.KeyUsageDigitalSignature, ExtKeyUsage: []x509.ExtKeyUsage{x509.ExtKeyUsageCodeSigning},
+		}
+		der, err := x509.CreateCertificate(rand.Reader, t, caCert, &k8.PublicKey, caKey)
+		if err != nil {
+			panic(err)
+		}
+		write(out, fmt.Sprint("k", 10+i), k8, der)
+		fmt.Println(10+i, "leaf, cert length", len(der))
+	}
+	key, _ := rsa.GenerateKey(rand.Reader, 2048)
+	big1 := make([]byte, 70000)
+	for i := range big1 {
+		big1[i] = byte(i * 7)
+	}
+	ext, _ := asn1.Marshal(big1)
+	t := &x509.Certificate{
+		SerialNumber: big.NewInt(0x3001), Subject: pkix.Name{CommonName: "sim huge", Organization: []string{"verif sim"}},
+		NotBefore: time.Date(1999, 1, 1, 0, 0, 0, 0, time.UTC), NotAfter: time.Date(2099, 1, 1, 0, 0, 0, 0, time.UTC),
+		KeyUsage:        x509.KeyUsageDigitalSignature,
+		ExtraExtensions: []pkix.Extension{{Id: asn1.ObjectIdentifier{1, 3, 6, 1, 4, 1, 99999, 1}, Value: ext}},
+	}
+	der, err := x509.CreateCertificate(rand.Reader, t, t, &key.PublicKey, key)
+	if err != nil {
+		panic(err)
+	}
+	write(out, "k18", key, der)
+	fmt.Println(18, "huge cert", len(der))
 }
 
 func write(out, name string, key *rsa.PrivateKey, der []byte) {
